@@ -67,7 +67,7 @@ theorem center_shape (s : Bytes) (w : Int64) :
       if w.toInt ≤ len then .ok ⟨.str s, false⟩
       else if w.toInt - len > maxCharPadding then .err "center: too much padding"
       else .ok ⟨.str (Bytes.spaces (centerPads len w.toInt).1.toNat ++ s ++ Bytes.spaces (centerPads len w.toInt).2.toNat), false⟩ := by
-  simp [applyFilter, centerPads, Val.toInt, Val.resolved, Val.toS, Val.toStr, Val.isNil, Val.rkind, Val.kind, mkStr]
+  simp [applyFilter, centerPads, Val.toInt, Val.resolved, Val.toS, Val.toStr, Val.isNil, Val.rkind, Val.kind, mkStr, Val.len]
 
 theorem center_pads_sum (len w : Int) (h : len < w) :
     let p := centerPads len w
@@ -78,12 +78,12 @@ theorem center_pads_sum (len w : Int) (h : len < w) :
 
 /-- `ljust`: the text followed by `max (w - len) 0` spaces (error above the cap). -/
 theorem ljust_shape (s : Bytes) (w : Int64) :
-    let len : Int := (Val.str s).len
+    let len : Int := (Utf8.runes s).length
     let pad : Int := if w.toInt - len < 0 then 0 else w.toInt - len
     applyFilter b!"ljust" ⟨.str s, false⟩ ⟨.int w, false⟩ =
       if pad > maxCharPadding then .err "ljust: too much padding"
       else .ok ⟨.str (s ++ Bytes.spaces pad.toNat), false⟩ := by
-  by_cases h : w.toInt - ((Val.str s).len : Int) < 0 <;>
+  by_cases h : w.toInt - ((Utf8.runes s).length : Int) < 0 <;>
     simp [applyFilter, Val.toInt, Val.resolved, Val.toS, Val.toStr, Val.isNil, Val.rkind, Val.kind, mkStr, h]
 
 /-- `rjust`: `max (w - len) 0` spaces followed by the text; negative widths add nothing. -/
